@@ -113,9 +113,6 @@ type convertedKey struct {
 // item that follow: every one of them made a copy of its own (a megabyte of text and 300
 // references of three bytes each kept 300 MB alive).
 func (dec *Decoder) rememberConverted(key convertedKey, copied interface{}) {
-	if key.length < 64 {
-		return // not worth an entry
-	}
 	if dec.converted == nil {
 		dec.converted = make(map[convertedKey]interface{})
 	}
